@@ -176,14 +176,16 @@ CLAIMS["C13"] = dict(
 
 CLAIMS["C04"].update(
     category="proof",
-    text="30 Lean theorems. 24 for ALL states of the kernel model (not only reachable ones): "
+    text="33 Lean theorems. 24 for ALL states of the kernel model (not only reachable ones): "
          "_effectively_cancelled equals its declarative reading (first cancelled scope on the chain before "
          "any shield), shields block, monotonicity; _parent_cancellation_is_visible characterised; "
          "CancelScope.__exit__ swallows / re-raises the remainder / passes exactly according to "
          "(cancel_called, parent visibility, AnyIO-cancellation leaves), cancelled_caught is set exactly by "
          "an absorbing exit, other exceptions and the non-cancellation leaves of groups always pass, the "
-         "exit restores the task's scope pointer and removes the scope's timer. Plus 6 theorems "
-         "(Props/C04reach.lean) about delivery, under the reachability invariant WF: a delivery from a "
+         "exit restores the task's scope pointer and removes the scope's timer. Plus 9 theorems "
+         "(Props/C04reach.lean) about delivery, under the reachability invariant WF and over Reach "
+         "(C04_deliver_step_sound: whenever a delivery handle runs in a reachable state, every task whose record "
+         "changes sits in an effectively cancelled scope - no cancelCalled hypothesis): a delivery from a "
          "cancelled scope o changes only tasks sitting in a scope that is effectively cancelled, that lies "
          "in o's subtree with no shield and no other cancelled scope in between (C04_deliver_sound, "
          "_subtree, _shield_blocks_delivery); every other task's record is untouched by the whole "
@@ -306,17 +308,22 @@ CLAIMS["C01"].update(
     technique="Lean 4 invariant proof over the kernel LTS + trace validation + join oracle")
 CLAIMS["C02"].update(
     category="proof",
-    text="9 Lean theorems over the kernel model: routing completeness over all reachable states (every child "
-         "whose done-callback ran with a non-cancellation outcome is either recorded in the group's exception "
-         "list or was delivered to the start() caller's future - none dropped, covers F2), the recorded list is "
-         "a permutation of [earlier body leaves] ++ body leaves ++ the outcomes of the routed children, each "
-         "routed child once (C02_exactly_once_partial: that the leading part is empty, i.e. __aexit__ runs its "
-         "first part once per group, is not yet proved), the block raises exactly the non-cancellation leaves "
-         "of that list (or the body's exception) through the group scope's exit, nothing when nothing failed, "
-         "a newly recorded failure cancels the group scope or finds it effectively cancelled already, "
-         "children's cancellations are never recorded. The exactly-once multiset equality on whole histories "
-         "is decided on every run by the oracle.",
-    technique="Lean 4 invariant proofs over the kernel LTS (one clause partial) + trace validation + exactly-once oracle")
+    text="15 Lean theorems over every reachable state of the kernel model. __aexit__ of a group runs once: after "
+         "the first `.aexit g` no event list ever enables it again (C02_aexit_once, via the host invariant "
+         "HInv). Exactly once (C02_exactly_once): while the group has not exited, its recorded exception list "
+         "is a permutation of the body's leaves ++ the outcomes of the routed children, the routed children "
+         "are distinct, were spawned into this group, have run their done-callback and ended with a "
+         "non-cancellation exception. At exit (C02_exactly_once_at_exit): the step that makes the group exited "
+         "is a resumption of the task inside __aexit__ and outputs an exception whose non-cancellation leaves "
+         "are a permutation of those of body ++ routed children (nothing when nothing failed). None dropped "
+         "(routing completeness, covers F2): every child whose done-callback ran with a non-cancellation "
+         "outcome is recorded in the group or was delivered to the start() caller's future. A newly recorded "
+         "failure cancels the group scope or finds it effectively cancelled already; children's cancellations "
+         "are never recorded. (The two `_partial` theorems of Props/C02.lean are superseded by Props/C02full.lean.) "
+         "Two planned statements are proved FALSE with witnesses: 'failed group stays cancelled' as a state "
+         "invariant, and 'no cancellation among the leaves' for a child raising a user-made group. Trace "
+         "validation plus the exactly-once oracle on whole histories tie the model to the code.",
+    technique="Lean 4 invariant proofs over the kernel LTS + trace validation + exactly-once oracle")
 CLAIMS["C06"].update(
     text="37 Lean theorems. For ALL states: current_effective_deadline equals the declarative spec, _timeout "
          "arms exactly at the deadline or cancels at once, the setter re-arms without stale timers, a timer "
@@ -331,28 +338,30 @@ CLAIMS["C06"].update(
          "change again along any event list (never after the scope was left).")
 CLAIMS["C03"].update(
     category="proof",
-    text="14 Lean theorems over the kernel model. _deliver_cancellation is characterised exactly (under the "
-         "reachability invariants WF and BW): it returns 'retry' iff some not-done task sits in a scope "
-         "reachable downward from the cancelled scope through active, unshielded, uncancelled scopes, it "
-         "cancels exactly the tasks of those scopes that are started, not running, not already marked and "
-         "whose waiter is not done - a blocked one is woken with its future cancelled and its wake-up handle "
-         "queued, a runnable one gets _must_cancel - and leaves every other task unchanged "
-         "(C03_deliverGo_spec). For EVERY reachable state (C03_delivery_live): an active cancelled scope that "
-         "still has such a task has its delivery flag set and its delivery handle scheduled (ready or current "
-         "batch) - the level-triggered retry never stops early; F4 was a violation of exactly this and its "
-         "history is a decide example on the repaired model (restart on spawn, on exit of a shielded scope, "
-         "on shield := False). A delivery handle that runs reschedules itself iff still needed; a loop cycle "
-         "cannot begin before the current batch is drained (C03_cycle), a handle runs only from the batch; a "
-         "task spinning in checkpoint_if_cancelled never completes normally: it yields again or ends with "
-         "the cancellation (C03_chkif). C03_latency_partial joins the step-local links (scheduled delivery "
-         "-> blocked task woken with CancelledError on its next resume); the composition into a numeric "
-         "bound over arbitrary interleavings of the other callbacks of a cycle is not proved - the bound "
-         "(3 cycles, no clock advance) is measured on every generated history by the latency oracle.",
-    technique="Lean 4 invariant proof over the kernel LTS (latency composition partial) + trace validation "
-              "+ latency oracle")
+    text="27 Lean theorems over every reachable state of the kernel model. _deliver_cancellation is "
+         "characterised exactly (C03_deliverGo_spec): it returns 'retry' iff some not-done task sits in a scope "
+         "reachable downward from the cancelled scope through active, unshielded, uncancelled scopes; it cancels "
+         "exactly the tasks there that are started, not running, not already marked and whose waiter is not "
+         "done (a blocked one is woken with its future cancelled, a runnable one gets _must_cancel) and leaves "
+         "every other task unchanged. Level-triggered liveness (C03_delivery_live): an active cancelled scope "
+         "that still has such a task has its delivery handle scheduled - F4 was a violation of exactly this; "
+         "restart on spawn, on exit of a shielded scope, on shield := False are covered. Supporting invariants "
+         "proved over Reach: ancestors of active scopes are active, every effectively cancelled scope holding "
+         "a task has an active cancelled origin reaching it (C03_origin), a blocked task never has "
+         "_must_cancel, a scheduled delivery handle belongs to a cancelled scope and stays in its batch until "
+         "run, a scope that becomes cancelled delivers in the same transition. Bounded latency (C03_latency, "
+         "C03_two_cycles, C03_two_cycles_interrupted): for every event list of any length, a task blocked "
+         "in an effectively cancelled scope cannot stay so across more than one beginCycle (none if the "
+         "delivery is already in the current batch): after two cycle boundaries it has been woken with the "
+         "cancellation, left the scope, or the scope stopped being effectively cancelled (somebody shielded "
+         "it - the example shows this alternative is necessary). A task spinning in checkpoint_if_cancelled "
+         "never completes normally (C03_chkif); a loop cycle cannot begin before the batch is drained "
+         "(C03_cycle). Trace validation (stock loop, eager factory), the latency oracle (3 cycles, no clock "
+         "advance) and an oracle-only uvloop leg with a per-iteration cycle counter tie this to the code.",
+    technique="Lean 4 invariant proofs over the kernel LTS + trace validation + latency oracle")
 CLAIMS["C07"].update(
     category="proof",
-    text="16 Lean theorems over the kernel model. For every reachable state: every future id in use has exactly "
+    text="20 Lean theorems over the kernel model. For every reachable state: every future id in use has exactly "
          "one role (start future of one child, completion future of one group, handle waiter, sleep, user "
          "future) - the start future is private to the handshake (C07_future_roles, _start_future_fresh); a "
          "start future changes state only from pending and only by (a) started() executed by that very child, "
@@ -364,9 +373,9 @@ CLAIMS["C07"].update(
          "the group (C07_early_exit, full); after the caller was cancelled, start() proceeds from the shielded "
          "join only when the child has finished (C07_caller_cancelled_join), and an error raised by the child "
          "after the handshake or after the caller was cancelled is routed to the group (F2); started() on a "
-         "resolved/failed future is RuntimeError with the state unchanged, on a cancelled one no error. Minor "
-         "gap: C07_value is stated for the wake-up handle (the step handle case needs 'startWait is never "
-         "yielded'). Trace validation and the handshake oracle tie the model to the code.",
+         "resolved/failed future is RuntimeError with the state unchanged, on a cancelled one no error. A task "
+         "waiting in start() is never yielded, so its step handle is never enabled and C07_value covers both "
+         "handles (C07_value_any). Trace validation and the handshake oracle tie the model to the code.",
     technique="Lean 4 invariant proofs over the kernel LTS + trace validation + handshake oracle")
 CLAIMS["C08"].update(
     category="proof",
